@@ -502,6 +502,8 @@ static int run_case(struct vf_rng *r, long idx)
 			decodes++;
 			/* fewer output records than lines */
 			if (scan > 1) decode_all(&c, &x, img, vf_range(r, 1, scan - 1), what, &ids);
+			/* no output record at all: out points at the guard page itself */
+			if (vf_chance(r, 1, 3)) decode_all(&c, &x, img, 0, what, &ids);
 			/* the same last line through the single-line interfaces */
 			memcpy(linebuf, img + (size_t)(scan - 1) * (size_t)c.sp.bytes_per_line, (size_t)c.sp.bytes_per_line);
 			for (k = 0; k < c.nset; k++) {
